@@ -6,7 +6,7 @@ HERE = os.path.dirname(os.path.dirname(os.path.abspath(__file__)))
 
 def state_table():
     claims = json.load(open(os.path.join(HERE, "tools", "claims.json")))
-    rows = ["| property | claimed | theorems (Props.v) | axioms used | correspondence cases (quick) | explored (quick) | quick wall s |",
+    rows = ["| property | claimed | obligations discharged (Props.v theorems + source-tie lemmas) | axioms used | correspondence cases (quick) | explored (quick) | quick wall s |",
             "|---|---|---|---|---|---|---|"]
     for i in range(1, 21):
         pid = "C%02d" % i
